@@ -330,7 +330,9 @@ def mixture_distribution_quantiles(dist, probs, N_grid_points: int = int(1e3), g
         else:
             raise e
 
-    grid_check = (cdf_grid.min(axis=0).max() <= min(probs)) & (max(probs) <= cdf_grid.max(axis=0).min())
+    # NOTE: strict upper bound, because the search below looks for the first grid point with cdf > prob. If prob equals the largest
+    #       cdf value on the grid (e.g. both round to 1.0), no such point exists and argmax would silently return the grid minimum.
+    grid_check = (cdf_grid.min(axis=0).max() <= min(probs)) & (max(probs) < cdf_grid.max(axis=0).min())
     if not grid_check:
         print(
             f"Grid min: {grid_min}, max: {grid_max} | CDF min: {cdf_grid.min(axis=0).max()}, max: {cdf_grid.max(axis=0).min()} | Probs min: {min(probs)}, max: {max(probs)}"
